@@ -19,6 +19,8 @@ Tab == /\ Rec[l].ev = "symtab"
 Exports == /\ Rec[l].ev = "exports"
            /\ (IF ~Rec[l].hasExpect \/ SeqSet(Rec[l].keys) = SeqSet(Rec[l].expect) THEN TRUE
                ELSE Fail("export-keys-differ-from-es-fixpoint", [module |-> Rec[l].module, keys |-> Rec[l].keys, expect |-> Rec[l].expect]))
+           /\ (IF ~Rec[l].hasExpect \/ OwnWins(SeqSet(Rec[l].own), Rec[l].providers, Rec[l].module) THEN TRUE
+               ELSE Fail("own-export-does-not-take-precedence", [module |-> Rec[l].module, own |-> Rec[l].own, providers |-> Rec[l].providers]))
            /\ l' = l + 1
 Defs == /\ Rec[l].ev = "defs"
         /\ (IF Rec[l].bad = <<>> THEN TRUE ELSE Fail("go-to-definition", Rec[l].bad))
